@@ -131,7 +131,8 @@ def _stop(ctx: Ctx, ex: set) -> Callable[[Func, ast.AST], bool]:
 def local_slice(ctx: Ctx, f: Func, expr: ast.AST, follow_callers: bool = False) -> Slice:
     ex = {id(c) for _, c in exempt_sinks(ctx)}
     return ctx.slicer(follow_calls=True, follow_callers=follow_callers, max_items=8000, opaque=("dds.fun_args.dds_hash", "dds.fun_args.dds_hash_commut",
-                      "dds.fun_args._algo_str", "dds.fun_args._algo_bytes"), stop=_stop(ctx, ex)).slice(f, expr)
+                      "dds.fun_args._algo_str", "dds.fun_args._algo_bytes", "dds.store", "dds._lru_store", "dds.codecs", "dds.codec", "dds._plotting", "dds._print_ast",
+                      "dds._config"), stop=_stop(ctx, ex)).slice(f, expr)
 
 
 def classify_node(ctx: Ctx, f: Func, n: ast.AST) -> Optional[Tuple[str, str]]:
